@@ -8,7 +8,8 @@
 From Coq Require Import ZArith NArith List Bool Lia Arith ZifyBool ZifyN ZifyNat.
 Import ListNotations.
 Require Import SR.Base.Res SR.Model.Ndjson.
-Require SR.Model.Workbook SR.Proofs.WorkbookP.
+Require SR.Model.Workbook SR.Proofs.WorkbookP SR.Model.Csv SR.Proofs.CsvP.
+Require Import SR.Gen.CsvOpenParams.
 Open Scope N_scope.
 Ltac Zify.zify_post_hook ::= Z.to_euclidean_division_equations.
 
@@ -394,6 +395,26 @@ Proof.
   apply Forall_forall. intros d _. apply safe_object.
 Qed.
 
+Lemma safe_no_cr s : WorkbookP.safe s = true -> Csv.no_cr s = true.
+Proof.
+  unfold WorkbookP.safe, Csv.no_cr. rewrite !forallb_forall. intros H x Hx. specialize (H x Hx).
+  apply andb_prop in H as [_ H]. exact H.
+Qed.
+
+Lemma written_no_cr ea : forall docs, Csv.no_cr (ndjson_write ea docs) = true.
+Proof.
+  unfold ndjson_write. induction docs as [|d docs IH]; [reflexivity|].
+  cbn [map concat]. rewrite !CsvP.no_cr_app, IH, (safe_no_cr _ (safe_object ea d)). reflexivity.
+Qed.
+
+(* the lines the unpacker iterates over, whichever way JSONUnpacker.open opens the file *)
+Lemma written_lines_lib ea docs :
+  ndjson_lines (ndjson_write ea docs) = map (fun d => json_object ea d ++ [10]) docs.
+Proof.
+  unfold ndjson_lines. destruct ndjson_newline_raw; [|apply written_lines].
+  rewrite CsvP.raw_lines_text_lines by apply written_no_cr. apply written_lines.
+Qed.
+
 Lemma read_written ea : forall docs, forallb (doc_ok ea) docs = true ->
   read_lines (map (fun d => json_object ea d ++ [10]) docs) = (docs, Done tt).
 Proof.
@@ -406,7 +427,7 @@ Qed.
 Lemma ndjson_roundtrip ea docs : forallb (doc_ok ea) docs = true ->
   ndjson_read (ndjson_write ea docs) = Done docs.
 Proof.
-  intros H. unfold ndjson_read, ndjson_reader. rewrite written_lines, (read_written ea docs H). reflexivity.
+  intros H. unfold ndjson_read, ndjson_reader. rewrite written_lines_lib, (read_written ea docs H). reflexivity.
 Qed.
 
 (* ================================================================ Part E *)
